@@ -176,6 +176,14 @@ class NoneConverter(Converter[None]):
     Converter which accepts only ``None``.
     """
 
+    def into_data(self, val: t.Any) -> DataType:
+        """See [`Converter.into_data`][pane.converters.Converter.into_data]"""
+        # (an implementation of its own: with custom handlers in force, `into_data(None)` looks this converter up
+        # by the value's type and refuses to be sent back to the default implementation)
+        if val is None:
+            return None
+        return into_data(val)
+
     def try_convert(self, val: t.Any) -> None:
         """See [`Converter.try_convert`][pane.converters.Converter.try_convert]"""
         if val is None:
